@@ -61,6 +61,10 @@ def cases(shard, nshards, seed, tier):
                     tw = {"kind": "T1", "ops": [{"op": "rigid", "seed": f"{seed}:{fn}:{vi}:{t}", "trans": [rng.uniform(-500, 500) for _ in range(3)]}]}
                 if mine():
                     yield {"family": "T1-rigid", "file": fn, "base_ops": base_ops, "twin": tw}
+            # translations that put one atom exactly on the origin (zero coordinates are ordinary coordinates)
+            for t in range(3 if tier == "quick" else 12):
+                if mine():
+                    yield {"family": "T1-atom-on-origin", "file": fn, "base_ops": base_ops, "twin": {"kind": "T1", "ops": [{"op": "atom-to-origin", "seed": f"{seed}:{fn}:{vi}:o{t}"}]}}
             for t in range(n2):
                 if mine():
                     yield {"family": "T2-atom-order", "file": fn, "base_ops": base_ops, "twin": {"kind": "T2", "ops": [{"op": "shuffle-atoms", "seed": f"{seed}:{fn}:{vi}:s{t}"}]}}
